@@ -18,6 +18,17 @@ CFG = {
                   "of deliveries, duplications and clock advances (any order; an advance goes at most J beyond the next tick of the "
                   "controlling agent, J + 2 L < 4 s) that delivers every datagram in flight before the clock has moved by L, both agents are "
                   "selected and Connected once the clock is beyond fairBound = max(now + 2 s + J + 2 L, nomTime) + 2 s + 2 J + 4 L. "
+                  "C01_converges_fair_valid_partial: the same without any hypothesis on the pairs of the start state, given that the "
+                  "controlling agent has its first valid pair by time B on the schedule (ValidBy, decidable; covers a pair created by a "
+                  "peer-reflexive discovery inside the suffix); C01_first_valid_fair_partial derives ValidBy from a budgeted pair of the "
+                  "controlling agent at the start. "
+                  "C01_converges_fair_disc_partial / C01_converges_fair_tick_partial: ValidBy derived from fairness when the good pair "
+                  "exists only at the controlled agent: its check in flight with a source unknown to the controlling agent (DiscReqD), or "
+                  "the check lost on a quiet network so that the controlled agent's tick re-sends it (TickReqD). "
+                  "C01_converges_fair_retx_partial: controlling agent selected, the controlled agent's nomination-triggered check lost "
+                  "(excluded by ReadyF): on a quiet network (RetxD) its own timer re-sends the check and both converge. "
+                  "C01_converges_fair_wide_partial composes the four into one decidable start class ReadyW with one bound wideBound. "
+                  "C01_converges_fair_tick2_partial: the tick theorem with the controlling agent ticking in between (TickReq2D: its routes undeliverable). "
                   "The FULL liveness statement C01_converges (every fair schedule, every start state) and the "
                   "full MIRROR theorem are NOT proved: convergence and mirror images on arbitrary generated fair suffixes are checked "
                   "by the spec monitor of the correspondence run (differential execution of the model against two real agents).",
